@@ -297,9 +297,13 @@ func caseWr(args []string, oracle bool) (o outcome, ok bool) {
 		bad := err != nil
 		if err == nil {
 			for _, c := range chunks {
-				n, err := wr.Write(c)
+				b := append([]byte{}, c...)
+				n, err := wr.Write(b)
 				if err != nil || n != len(c) {
 					bad = true
+				}
+				for j := range b { // io.Writer: "implementations must not retain p"
+					b[j] ^= 0xa5
 				}
 			}
 			if err := wr.Close(); err != nil {
